@@ -71,6 +71,22 @@ class Inventory:
         self._cache = {}
         self._succ = {}
 
+    def _is_configuration_value(self, fn, du, v):
+        cv = self.exempt.get("configuration_values", {})
+        v = strip_casts(v)
+        if v[0] == "call" and v[1] and any(v[1] == p for p, _ in cv.get("producers", [])):
+            return True
+        if v[0] == "call" and v[1] and v[1].endswith(("::unwrap", "::unwrap_or", "::clone")) and v[2]:
+            return self._is_configuration_value(fn, du, v[2][0])
+        if v[0] in ("place", "ref") and v[1][1]:
+            fields = [p for p in v[1][1] if isinstance(p, tuple) and p[0] == "f"]
+            base_ty = fn.local_ty(v[1][0]) or ""
+            if fields:
+                for adt, fld, _ in cv.get("fields", []):
+                    if fields[-1][2] == fld and adt.split("::")[-1] in base_ty:
+                        return True
+        return False
+
     def exempt_reason(self, name):
         for pat, why in self.exempt["exempt"]:
             if re.fullmatch(pat, name):
@@ -127,6 +143,8 @@ class Inventory:
                             k = const_int(v)
                             if (k is not None and k < (1 << 32)) or _is_count(du, v):
                                 s.status, s.reason = "exempt", "allocation size is a constant or an in-memory length"
+                            elif self._is_configuration_value(fn, du, v):
+                                s.status, s.reason = "exempt", "allocation size is a start-up configuration value (tables/std_panic_exempt.json: configuration_values), not client input"
                             elif _is_count_arith(du, v):
                                 s.status, s.reason = "exempt", "allocation size is small-constant arithmetic over in-memory lengths (inputs smaller than 2 GiB: stated assumption)"
                         out.append(s)
@@ -676,6 +694,19 @@ def _is_count_arith(du, v, depth=0):
         return _is_count_arith(du, v[2][0], depth + 1) or _is_count_arith(du, v[2][1], depth + 1)
     if v[0] == "call" and v[1] == "std::iter::Iterator::sum" and v[2] and _maps_to_len(du, v[2][0]):
         return True
+    if v[0] == "place" and not v[1][1] and 1 <= v[1][0] <= du.fn.nargs and (getattr(du.fn, "vis", "") or "").startswith("Restricted") \
+            and not any(pk[0] == v[1][0] for _, _, pk, _ in du.writes) and depth < 3:
+        # a parameter of a private function: a count when every call site passes one (`next_bytes(1)`, `next_string(rest.len())`)
+        from . import facts as _facts
+        F = _facts.CURRENT
+        sites = []
+        if F is not None:
+            for g in F.fns.values():
+                for bid, t in g.calls():
+                    if callee_name(t) == du.fn.def_:
+                        sites.append((g, t))
+        if sites and all(len(t["args"]) >= v[1][0] and _is_count_arith(du_of(g), du_of(g).val_operand(t["args"][v[1][0] - 1]), depth + 1) for g, t in sites):
+            return True
     if v[0] == "place" and not v[1][1]:
         # an accumulator: every definition is a constant or itself plus count arithmetic
         ds = du.defs.get(v[1][0], [])
